@@ -626,6 +626,20 @@ example : exIcac ∈ (pathOf exNoc (some exIcac) exFabric.root).tail := by decid
 example : ({ fabricId := 7, rootPubKey := exRoot.pubKey } : FabricEntry) ∈ [⟨7, 0⟩] := by decide
 example : exRoot.akid = exRoot.skid := by decide
 
+-- consistent DOUBLE change: one root key serving two fabric ids.  NOC and ICAC both name fabric 8 and agree
+-- with each other in every respect (names, key ids, signatures); presented for fabric 7 the chain is refused,
+-- by the NOC clause and by the ICAC clause independently (`fabric_id_mismatch` / `icac_fabric_id_mismatch`
+-- make no assumption on the other certificate)
+def exIcacY : Cert := { exIcac with subject := [.icaId 2, .fabricId 8] }
+def exNocY : Cert := { exNoc with subject := [.nodeId 5, .fabricId 8, .cat 65537], issuer := [.icaId 2, .fabricId 8] }
+example : verifyChain exT [exNocY, exIcacY, exRoot] = .ok () := by rfl
+example : ¬ CaseValid exT exFabric exNocY (some exIcacY) := by decide
+example : caseAccept exT exFabric exNocY (some exIcacY) = .error .invalid := by rfl
+example : caseAccept exT exFabric exNoc (some exIcacY) = .error .invalid := by rfl
+example : caseAccept exT exFabric exNocY (some { exIcac with subject := [.icaId 2] }) = .error .invalid := by rfl
+-- the same chain IS valid for fabric 8 under that root
+example : caseAccept exT { exFabric with fabricId := 8 } exNocY (some exIcacY) = .ok 5 := by rfl
+
 -- chains of other lengths through the bare verifier
 example : verifyChain exT [exNoc, exIcac, exRoot] = .ok () := by rfl
 example : verifyChain exT [exRoot] = .ok () := by rfl
